@@ -154,3 +154,15 @@ def checks_obligations():
     `obligations = pylite_tie.checks_obligations` in harness/c20.py"""
     return tie("ChecksSrc", os.path.join("verde", "base", "utils.py"), CHECKS_FUNCS, "pylite_checks.v.tmpl",
                CHECKS_THEOREMS, CHECKS_IMPORTS)
+
+
+TREND_FUNCS = ["polynomial_power_combinations"]
+TREND_THEOREMS = ["src_polynomial_power_combinations_neg", "src_polynomial_power_combinations_eq"]
+TREND_IMPORTS = "From Verde Require Import Model.Trend Proofs.PyLiteBridge."
+
+
+def trend_obligations():
+    """verde/trend.py polynomial_power_combinations against Model/Trend.v (property C03); to hook it:
+    `obligations = pylite_tie.trend_obligations` in harness/c03.py"""
+    return tie("TrendSrc", os.path.join("verde", "trend.py"), TREND_FUNCS, "pylite_trend.v.tmpl",
+               TREND_THEOREMS, TREND_IMPORTS)
